@@ -292,6 +292,17 @@ def _first_word(s):
     return m.group(1) if m else ''
 
 
+def _block_first_word(lines, i):
+    """first word of the first non-comment line of the annotation block starting at i"""
+    j = i
+    while j < len(lines) and lines[j][0][0] == 'ann':
+        t = lines[j][1].strip()
+        if t and not t.startswith('//'):
+            return _first_word(t)
+        j += 1
+    return ''
+
+
 def hoist(lines, fname):
     """lines: list of (origin, text).  Clause blocks (annotation lines whose block starts with a clause keyword)
     are moved in front of the `{` or `;` that ends the preceding code line; fn return values get the name r."""
@@ -300,7 +311,7 @@ def hoist(lines, fname):
     n = len(lines)
     while i < n:
         org, text = lines[i]
-        if org[0] == 'ann' and (i == 0 or lines[i - 1][0][0] != 'ann') and _first_word(text) in CLAUSE_KW:
+        if org[0] == 'ann' and (i == 0 or lines[i - 1][0][0] != 'ann') and _block_first_word(lines, i) in CLAUSE_KW:
             # collect the block
             j = i
             block = []
